@@ -62,6 +62,9 @@ pub struct RunCfg {
     /// permute directory iteration order
     pub rd_perm: bool,
     pub keep_event_log: bool,
+    /// one hard I/O error in the middle of the history: (n-th libcnb-calling step, k-th matching
+    /// libc call of that step, errno). The history then continues: recovery is part of the run.
+    pub hard_fault: Option<(usize, i64, i32)>,
 }
 
 const IMPLICIT_VARS: [&str; 5] = ["PATH", "LD_LIBRARY_PATH", "LIBRARY_PATH", "CPATH", "PKG_CONFIG_PATH"];
@@ -98,7 +101,26 @@ pub fn env_diff(real: &LayerEnv, model: &EnvModel, mix: u64, layer_abs: &[u8]) -
     }
     names.sort();
     names.dedup();
-    let probes = probe_envs(&names, mix);
+    let mut probes = probe_envs(&names, mix);
+    if !layer_abs.is_empty() {
+        // start environments that already name the layer's own directories (e.g. the result of an
+        // earlier apply of the same layer): the implicit entries are prepended regardless
+        let own = |sub: &str| {
+            let mut v = layer_abs.to_vec();
+            v.extend_from_slice(sub.as_bytes());
+            v
+        };
+        let mut exact = EnvMap::new();
+        let mut leading = EnvMap::new();
+        for (var, sub) in [("PATH", "/bin"), ("LD_LIBRARY_PATH", "/lib"), ("LIBRARY_PATH", "/lib"), ("CPATH", "/include"), ("PKG_CONFIG_PATH", "/pkgconfig")] {
+            exact.insert(var.as_bytes().to_vec(), own(sub));
+            let mut l = own(sub);
+            l.extend_from_slice(b":/usr/local/x");
+            leading.insert(var.as_bytes().to_vec(), l);
+        }
+        probes.push(exact);
+        probes.push(leading);
+    }
     let mut scopes = model.scopes();
     for p in ["web", "worker", "a.b", "web.override"] {
         let s = ScopeM::Process(p.to_string());
@@ -410,16 +432,56 @@ pub fn run_history(history: &History, cfg: &RunCfg, shim: &Shim) -> RunReport {
         let exp = model.apply(op);
         let log: RefCell<Vec<LoggedCb>> = RefCell::new(Vec::new());
         let calls_libcnb = !matches!(exp.result, ExpResult::NoCall);
+        let mut exp = exp;
         let (obs, st) = if calls_libcnb {
             ctx.report.libcnb_calls += 1;
+            let fault = match cfg.hard_fault {
+                Some((ordinal, k, errno)) if ordinal == ctx.report.libcnb_calls => Fault {
+                    at: k,
+                    errno,
+                    mode: crate::shimapi::MODE_ERROR,
+                },
+                _ => Fault::none(),
+            };
+            let armed = fault.at > 0;
+            if armed {
+                super::exec::FAULT_MODE.store(true, std::sync::atomic::Ordering::SeqCst);
+            }
             let w = &mut world;
             let m = &model;
             let l = &log;
-            ctx.with_shim(step, &Fault::none(), move || w.exec(op, m, l))
+            let out = ctx.with_shim(step, &fault, move || w.exec(op, m, l));
+            if armed {
+                super::exec::FAULT_MODE.store(false, std::sync::atomic::Ordering::SeqCst);
+            }
+            out
         } else {
             (world.exec(op, &model, &log), Stats::default())
         };
-        let log = log.into_inner();
+        let mut log = log.into_inner();
+        let fault_fired_err = st.fired && !obs.is_ok();
+        if st.fired {
+            probe(&mut ctx.report, "mid_history_fault_fired");
+            if fault_fired_err {
+                // the failed call is reported (C12); what it leaves in the requested layer is open,
+                // everything else and every later step are judged as usual
+                probe(&mut ctx.report, "mid_history_fault_reported_as_error");
+                exp.unconstrained = op.layer();
+                exp.result = match &obs {
+                    Observed::ErrBuildpack(c) => ExpResult::ErrBuildpack(*c),
+                    _ => ExpResult::ErrOther,
+                };
+                log.clear();
+                exp.callbacks.clear();
+                // a request that failed holds no layer reference
+                if let Some(l) = op.layer() {
+                    if op.is_request() {
+                        model.live.remove(&l);
+                        model.refs.remove(&l);
+                    }
+                }
+            }
+        }
         let actual = match world.snapshot() {
             Ok(s) => s,
             Err(e) => {
@@ -677,6 +739,12 @@ pub fn run_history(history: &History, cfg: &RunCfg, shim: &Shim) -> RunReport {
             viol = Some((props.into_iter().collect(), inv.into(), lines.clone()));
         }
 
+        // a violation in the very step whose call was faulted (and yet returned Ok) is C12's subject
+        if st.fired && !fault_fired_err {
+            if let Some((props, _, _)) = viol.as_mut() {
+                *props = vec!["C12".to_string()];
+            }
+        }
         // a wrong environment on disk after a trait-API request also counts against C03
         let env_on_disk_wrong = matches!(op, Op::Handle { .. })
             && own.iter().any(|l| {
